@@ -190,6 +190,43 @@ func c10Auth(c *hx.Ctx, in, payload []byte, class string) {
 		bad("decode(encode(v)) differs from v", map[string]any{})
 		return
 	}
+	// "decoding an encoded value reproduces the value" also for a value that was decoded and then
+	// edited (a tool replacing the signature, the type or the time of a descriptor it read): each named
+	// field is changed in turn, keeping the lengths, the value is encoded and decoded again
+	for ei, edit := range []func(x *signature.EFIVariableAuthentication2){
+		func(x *signature.EFIVariableAuthentication2) { x.AuthInfo.CertType = unwire(ownerB) },
+		func(x *signature.EFIVariableAuthentication2) {
+			nd := append([]byte{}, x.AuthInfo.CertData...)
+			for i := range nd {
+				nd[i] ^= 0x3c
+			}
+			x.AuthInfo.CertData = nd
+		},
+		func(x *signature.EFIVariableAuthentication2) { x.Time.Second ^= 1; x.Time.Year ^= 0x0101 },
+	} {
+		if ei == 1 && len(v.AuthInfo.CertData) == 0 {
+			continue
+		}
+		var e2 *signature.EFIVariableAuthentication2
+		var enc2 bytes.Buffer
+		var d2 *signature.EFIVariableAuthentication2
+		if p := hx.Try(func() {
+			e2, err = signature.ReadEFIVariableAuthencation2(bytes.NewReader(full))
+			if err != nil {
+				return
+			}
+			edit(e2)
+			e2.Marshal(&enc2)
+			d2, err = signature.ReadEFIVariableAuthencation2(bytes.NewReader(enc2.Bytes()))
+		}); p != nil || err != nil {
+			bad("encoding / re-decoding an edited value fails", map[string]any{"edit": ei, "error": fmt.Sprint(err, p)})
+			return
+		}
+		if d2.Time != e2.Time || d2.AuthInfo.CertType != e2.AuthInfo.CertType || !bytes.Equal(d2.AuthInfo.CertData, e2.AuthInfo.CertData) || d2.AuthInfo.Header.Length != e2.AuthInfo.Header.Length {
+			bad("decode(encode(v)) differs from v for a decoded value whose fields were edited", map[string]any{"edit": []string{"type GUID", "certificate data (same length)", "timestamp"}[ei]})
+			return
+		}
+	}
 	// a plain io.Reader (no ReadByte, like a file or a network stream) and readers that portion the
 	// data differently: exactly 16+dwLength bytes may be taken from the caller's reader
 	for ri, mk := range []func(io.Reader) io.Reader{func(r io.Reader) io.Reader { return struct{ io.Reader }{r} }, iotest.OneByteReader, iotest.DataErrReader} {
@@ -211,7 +248,8 @@ func c10Auth(c *hx.Ctx, in, payload []byte, class string) {
 	}
 	// same through a *bytes.Buffer (the reader the efivarfs layer hands to Unmarshal), whose
 	// storage is overwritten afterwards: consumed length, payload and the decoded value must not change
-	buf := bytes.NewBuffer(append([]byte{}, full...))
+	store := append([]byte{}, full...)
+	buf := bytes.NewBuffer(store)
 	var v3 signature.EFIVariableAuthentication2
 	if p := hx.Try(func() { err = v3.Unmarshal(buf) }); p != nil || err != nil {
 		bad("decoding from a *bytes.Buffer fails", map[string]any{"error": fmt.Sprint(err, p)})
@@ -221,10 +259,8 @@ func c10Auth(c *hx.Ctx, in, payload []byte, class string) {
 		bad("consumed bytes differ from 16+dwLength when decoding from a *bytes.Buffer", map[string]any{"rest": hx8(buf.Bytes()), "payload": hx8(payload)})
 		return
 	}
-	st := buf.Bytes()[:0]
-	st = st[:cap(st)]
-	for i := range st {
-		st[i] ^= 0xff
+	for i := range store {
+		store[i] ^= 0xff
 	}
 	buf.Reset()
 	buf.Write(bytes.Repeat([]byte{0xee}, len(full)))
@@ -304,7 +340,8 @@ func c10WinCert(c *hx.Ctx, in, payload []byte, class string) {
 			return
 		}
 	}
-	buf := bytes.NewBuffer(append([]byte{}, full...))
+	store := append([]byte{}, full...)
+	buf := bytes.NewBuffer(store)
 	var w3 signature.WINCertificate
 	if p := hx.Try(func() { w3, err = signature.ReadWinCertificate(buf) }); p != nil || err != nil {
 		bad("decoding from a *bytes.Buffer fails", map[string]any{"error": fmt.Sprint(err, p)})
@@ -314,11 +351,12 @@ func c10WinCert(c *hx.Ctx, in, payload []byte, class string) {
 		bad("consumed bytes differ from dwLength when decoding from a *bytes.Buffer", map[string]any{"rest": hx8(buf.Bytes())})
 		return
 	}
-	st := buf.Bytes()[:0]
-	st = st[:cap(st)]
-	for i := range st {
-		st[i] ^= 0xff
+	// the caller reuses the buffer: everything it ever held is overwritten (the consumed part too)
+	for i := range store {
+		store[i] ^= 0xff
 	}
+	buf.Reset()
+	buf.Write(bytes.Repeat([]byte{0xee}, len(full)))
 	if !bytes.Equal(w3.Certificate, want.Body) {
 		bad("a decoded WIN_CERTIFICATE changes when the caller reuses the buffer it was decoded from", nil)
 		return
